@@ -140,6 +140,7 @@ type Options struct {
 	// election-timeout draws" - every other use of randomness must not show).
 	RandSalt uint64
 	PinET    []int32
+	Debug    bool // keep the final state and the raft log in the result even without a violation
 }
 
 func NewCluster(rc RunConfig, opt Options) *Cluster {
@@ -515,7 +516,7 @@ func (c *Cluster) exec(a Action) bool {
 	case AHealPhase, AVClosePhase:
 		c.healing = true
 		return true
-	case AVElect, AVPropose, AVReplicate, AVCommit, AVCompact, AVSendApp, AVHeartbeat, AVSendSnap:
+	case AVElect, AVPropose, AVReplicate, AVCommit, AVCompact, AVSendApp, AVHeartbeat, AVSendSnap, AVProposeConf:
 		if c.vg == nil {
 			return false
 		}
